@@ -13,7 +13,7 @@ AXES = {
     "nds": [2, 1, 3],
     "axes": ["overlap", "identical", "disjoint", "near", "square", "descending"],
     "link": [None, True, False],
-    "indexdep": ["none", "all", "mixed"],
+    "indexdep": ["none", "all", "mixed", "mixed_rev"],
     "weights": ["none", "ds_all", "ds_first", "ds_last", "model_global", "model_both"],
     "dscale": ["none", "second", "all"],
     "multimc": ["single", "two", "two_scaled"],
@@ -52,7 +52,7 @@ def make_spec(o, variant=1, seed=0):
     if o["axes"] == "descending" and (o["penalty"] == "yes" or o["weights"] in ("model_global", "model_both")):
         return None  # interval -> index-range items are only defined for increasing axes (C08's domain)
     labels = LABEL_SETS[o["labels"]][:n]
-    idx = {"none": (False, False), "all": (True, True), "mixed": (False, True)}[o["indexdep"]]
+    idx = {"none": (False, False), "all": (True, True), "mixed": (False, True), "mixed_rev": (True, False)}[o["indexdep"]]
     mcs = {
         "m1": S.mc_model(["s1", "s2"], idx[0], fortran=o["memorder"] == "f"),
         "m2": S.mc_model(["s2", "s3"], idx[1], fortran=o["memorder"] == "f"),
@@ -76,6 +76,8 @@ def make_spec(o, variant=1, seed=0):
             d["weight"] = "dataset"
         datasets.append(d)
     groups = {"default": {"link_clp": o["link"], "residual_function": o["residual"]}}
+    if o["groups"] == "two_unlinked" and o["link"] is None:
+        groups["default"]["link_clp"] = False  # both groups unlinked unless the link axis says otherwise
     if o["groups"] in ("two", "two_unlinked") and n >= 2:
         datasets[-1]["group"] = "second"
         datasets[-1]["megacomplexes"] = ["m4"]
@@ -100,7 +102,7 @@ def make_spec(o, variant=1, seed=0):
     elif o["constraints"] == "zero_src_iv":  # the source of the relation (and of the penalty target) is itself constrained
         spec["constraints"].append({"type": "zero", "target": "s2", "interval": [2, 3]})
     elif o["constraints"] == "only_iv":
-        spec["constraints"].append({"type": "only", "target": "s3", "interval": [2, 4]})
+        spec["constraints"].append({"type": "only", "target": "s3", "interval": [3, 4]})  # zeroes s3 at 2 (shared with d1, which has no s3) and 5
     if o["relation"] == "iv":
         spec["relations"].append({"source": "s2", "target": "s3", "parameter": 0.7, "interval": [1, 3]})
     elif o["relation"] == "all":
